@@ -604,7 +604,8 @@ def run_real(site, opts, seed, concurrent, start_urls=None, workdir=None, db=Non
     if opts.get('input_file'):
         # the start URLs come from --input-file instead of the command line
         import tempfile
-        fd, tmp_input = tempfile.mkstemp(prefix='wpull-verif-input-', suffix='.txt')
+        # inside the run's own directory when there is one: a killed child never reaches the clean-up below
+        fd, tmp_input = tempfile.mkstemp(prefix='wpull-verif-input-', suffix='.txt', dir=workdir)
         os.write(fd, ('\n'.join(urls) + '\n').encode())
         os.close(fd)
         xargs += ['--input-file', tmp_input]
